@@ -6,7 +6,15 @@
    For every function body, every oracle and every fuel: a statement whose marker executes is
    marked reachable, hence is not among the statements the model reports dead.  The harness ties
    (a) Flow.v to pyscn (reported dead ranges = lines of the model's dead statements) and
-   (b) PySem.v to CPython (same traces under the same oracles) on generated programs each run. *)
+   (b) PySem.v to CPython (same traces under the same oracles) on generated programs each run.
+
+   Link between the abstraction Cfg/Flow.v and the graph-level model Cfg/Builder.v (blocks, typed edges, loop and
+   exception stacks, DFS, findings):
+   - PROVED FOR ALL BODIES (no size bound): same dead statements (C01_flow_agrees_with_builder,
+     C01_flow_dead_iff_unreachable) and every reported line range contains only dead statements
+     (C01_ranges_cover_only_dead, bodies whose ids are source-order line numbers);
+   - still bounded (exhaustive enumeration, <= 4 statement nodes): the complexity component of [check_one]
+     (C01_flow_agrees_with_builder_bounded); the two bounded theorems are kept as regression checks. *)
 From Coq Require Import NArith List.
 From PV Require Import Py.PyAST Py.PySem Cfg.Flow Cfg.FlowSound Cfg.Builder Cfg.BuilderBounded Cfg.BuilderAgree Cfg.BuilderRanges.
 
